@@ -142,6 +142,7 @@ def generate():
         "skel_try_inactive_gen": calls(fn_body(pm, r"fn\s+try_set_worker_inactive\s*\(", "try_set_worker_inactive")),
         "skel_set_inactive_gen": calls(fn_body(pm, r"fn\s+set_all_workers_inactive\s*\(", "set_all_workers_inactive")),
         "skel_is_idle_gen": calls(fn_body(pm, r"fn\s+pool_is_idle\s*\(", "pool_is_idle")),
+        "skel_act_all_gen": ["".join(fn_body(pm, r"fn\s+activate_all_workers\s*\(", "activate_all_workers").split())],
     }
     # the decisive condition of try_set_worker_inactive, textually
     tsi = "".join(fn_body(pm, r"fn\s+try_set_worker_inactive\s*\(", "try_set_worker_inactive").split())
@@ -173,7 +174,7 @@ def main():
                 "Definition translation_refused : string := \"%s\".\n"
                 "Definition barrier_gen : barrier := {| b_pre := []; b_inactive := []; b_last_empty := []; b_last_busy := [] |}.\n" % msg)
         for k in ("skel_worker_gen", "skel_sched_gen", "skel_run_gen", "skel_act_relaxed_gen", "skel_act_gen",
-                  "skel_try_inactive_gen", "skel_set_inactive_gen", "skel_is_idle_gen"):
+                  "skel_try_inactive_gen", "skel_set_inactive_gen", "skel_is_idle_gen", "skel_act_all_gen"):
             text += "Definition %s : list string := [\"refused\"].\n" % k
         sys.stderr.write("gen_pool: REFUSED: %s\n" % e)
     old = open(out).read() if os.path.exists(out) else None
